@@ -3,6 +3,7 @@ package main
 // Scenario generators: PRNG → script (op lines). Every random choice comes from the one *rand.Rand.
 
 import (
+	"encoding/hex"
 	"fmt"
 	"math/rand"
 	"strings"
@@ -208,7 +209,9 @@ func genLog(r *rand.Rand, id string, size int, total int) []string {
 // logQueries emits range queries whose bounds are named symbolically (`@k` = the k-th entry of the
 // replica's current listing, resolved by the executor), so that bounds are always entries of the log.
 func (g *Gen) logQueries(p int, nAdded int, n int) {
-	amounts := []string{"unset", "0", "1", "2", "3", fmt.Sprint(nAdded), fmt.Sprint(nAdded + 3), "-1", "-5"}
+	// (the integer boundaries are amounts too: "no limit" is written MaxInt by some callers)
+	amounts := []string{"unset", "0", "1", "2", "3", fmt.Sprint(nAdded), fmt.Sprint(nAdded + 3), "-1", "-5",
+		"9223372036854775807", "9223372036854775806", "2147483647", "2147483648", "-9223372036854775808", "4611686018427387904"}
 	kinds := []string{"gt", "gte", "lt", "lte", "none"}
 	for i := 0; i < n; i++ {
 		k := kinds[g.pick(len(kinds))]
@@ -707,7 +710,12 @@ func genTransport(r *rand.Rand, id string, size int, total int) []string {
 	lens := []string{"0", "1", "127", "128", "300", "4194303:16", "4194304:8", "4194305:8", "2147483648", "4294967296",
 		"9223372036854775807", "9223372036854775808", "9223372036854775809", "18446744073709551615", "16384:16384", "5:3", "5:5", "5:9"}
 	for i := 0; i < 4+g.pick(6); i++ {
-		switch g.pick(4) {
+		switch g.pick(5) {
+		case 4:
+			// a payload that does not arrive in one read: the stream hands over at most `chunk` bytes at a time
+			b := make([]byte, 1+g.pick(200))
+			g.r.Read(b)
+			g.add("tframe send:%s chunk=%d", hex.EncodeToString(b), []int{1, 3, 7, 64}[g.pick(4)])
 		case 0:
 			b := make([]byte, g.pick(40))
 			g.r.Read(b)
